@@ -18,6 +18,20 @@ CLAIMED = {
             "DESIGN.md 4/C16",
             "trusted: pyvc VC generator (cross-checked per path witness against CPython), z3; hash collisions ignored",
             "contract-based deductive verification: VCs generated from the AST of the real functions, discharged by z3"),
+    "C04": ("proof",
+            "Deductive proof of the per-message clauses of the statement on the real AsyncFIXConnection._process_message "
+            "with every callee in connection.py / session.py executed from the real source (only _process_resend is "
+            "replaced by an over-approximating contract): every logged-on pre-state satisfying the connection invariant x "
+            "every message with the session's CompIDs (type, MsgSeqNum, PossDupFlag, GapFillFlag, NewSeqNo symbolic, "
+            "unbounded integers, arbitrary text). Loop-free, so no bound. Two known findings (C04-KF1 Reset-mode "
+            "SequenceReset moves the counter backwards, C04-KF2 Logon inside a session) are excluded by class and the "
+            "residue is proved. The history sentences (strictly increasing, nothing twice) follow by induction from "
+            "deliver.only_expected + deliver.consumed + counter.* (induction not mechanised).",
+            "DESIGN.md 4/C04",
+            "assumed: _process_resend contract (writes only retransmissions / gap fills, may stop half way; C06 not built), "
+            "Codec.encode sequence-number choice (proved in C05), Journaler contracts, hooks do not touch connection "
+            "state, transport calls do not raise; trusted: pyvc (path witnesses replayed on CPython), z3",
+            "contract-based deductive verification: VCs generated from the AST of the real functions, discharged by z3"),
     "C05": ("proof",
             "Deductive proof of the per-call clauses of the statement on the real AsyncFIXConnection.send_msg (all 19 "
             "states x roles x message classes, unbounded integers), on the sequence-number choice of the real Codec.encode "
